@@ -22,6 +22,7 @@ import (
 var (
 	selfBin     string // path of this binary (plain build)
 	selfBinRace string // -race build (may be empty)
+	selfBinAsan string // -asan build (may be empty)
 )
 
 // ErrDead: the replica process died (panic, fatal error, kill).
@@ -58,6 +59,7 @@ type Replica struct {
 
 type SpawnOpt struct {
 	Race bool
+	Asan bool // AddressSanitizer build (Go code and the cgo secp256k1 library); a report is process-fatal
 	Env  []string
 	Log  bool
 }
@@ -72,6 +74,12 @@ func Spawn(dir string, opt SpawnOpt) (*Replica, error) {
 			return nil, errors.New("race binary not available")
 		}
 		bin = selfBinRace
+	}
+	if opt.Asan {
+		if selfBinAsan == "" {
+			return nil, errors.New("asan binary not available")
+		}
+		bin = selfBinAsan
 	}
 	if err := os.MkdirAll(dir, 0o755); err != nil {
 		return nil, err
